@@ -46,6 +46,9 @@ Definition dbestl (e : denv) (s : cst) (g : Z) : list Z :=
 
 Definition caller_ids (s : cst) : list Z := sort_z (map fst (c_callers s)).
 
+Definition rank_for (e : denv) (c : Z) : option (list (Z * Z)) :=
+  match aget None c (dn_rank e) with Some x => x | None => None end.
+
 (* 1: the worker loops take the requests of the callers parked on reqch *)
 Definition deliver_one (es : denv * cst) (c : Z) : denv * cst :=
   let (e, s) := es in
@@ -57,8 +60,7 @@ Definition deliver_one (es : denv * cst) (c : Z) : denv * cst :=
           if is_blocked e g then es
           else if dn_park e then (de_park e false (Some g), s)
           else
-            let rk := match aget None c (dn_rank e) with Some x => x | None => None end in
-            (e, cstep s (CDeliver c (okconn e (cr_fdir r)) rk))
+            (e, cstep s (CDeliver c (okconn e (cr_fdir r)) (rank_for e c)))
       | _ => es
       end
   | None => es
@@ -125,8 +127,40 @@ Definition round (es : denv * cst) : denv * cst :=
 Fixpoint rounds (n : nat) (es : denv * cst) : denv * cst :=
   match n with O => es | S k => rounds k (round es) end.
 
-Definition ROUNDS : nat := 12.
-Definition drain (es : denv * cst) : denv * cst := rounds ROUNDS es.
+(* How many rounds: a bound computed from the state.  Every move that changes anything lowers
+   it (Proofs_CompositeQ.round_dich), so after that many rounds nothing moves any more
+   (drain_quiet): a request still to be delivered counts 4 plus 4 per ranked address (the
+   addresses enter the dial queue), a caller inside 2 (its return, the close of the worker),
+   the dial queue of the live worker 4 per entry (a job: 2 while queued or about to run, 1
+   while dialing) plus 1 for an armed timer, a closed worker that has not returned 1, a
+   pending park of the gater 1. *)
+Definition rank_len (e : denv) (c : Z) : Z :=
+  match rank_for e c with Some rk => zlen rk | None => 0 end.
+
+Definition caller_wt (e : denv) (x : Z * option crec) : Z :=
+  match snd x with
+  | Some r => match cr_phase r with
+              | PSending => 4 + 4 * rank_len e (fst x)
+              | PWaiting => 2
+              | PReturned => 0 end
+  | None => 0
+  end.
+
+Definition asum {A : Type} (wt : A -> Z) (l : list A) : Z := fold_right (fun x acc => wt x + acc) 0 l.
+
+Definition worker_wt (w : wst) : Z :=
+  4 * zlen (w_dq w) + match w_timer w with Some _ => 1 | None => 0 end.
+
+Definition lim_wt (l : lim) : Z :=
+  2 * (zlen (flat_map snd (waitingOnPeer l)) + zlen (waitingOnFd l) + zlen (spawned l)) + zlen (dialing l).
+
+Definition phi (es : denv * cst) : Z :=
+  let (e, s) := es in
+  (if dn_park e then 1 else 0) + asum (caller_wt e) (c_callers s)
+  + match live_gen s with Some g => worker_wt (wget g s) | None => 0 end
+  + lim_wt (c_lim s) + zlen (c_stale s).
+
+Definition drain (es : denv * cst) : denv * cst := rounds (Z.to_nat (phi es)) es.
 
 (* virtual time advances to the next due timer, everything runs, and so on *)
 Fixpoint advance_to (fuel : nat) (stop : Z) (es : denv * cst) : denv * cst :=
